@@ -56,9 +56,10 @@ struct AHeader { std::vector<ABox> boxes; std::string generator; };
 struct DataSet {
     std::vector<AObj> objs;
     AHeader header;
-    std::vector<size_t> split;          // buffer boundaries: object indexes at which a new buffer is started
-    bool typemax = false;               // contains a value equal to its type's maximum that the text parsers are pinned to reject
-    std::string name;
+    int feed = 0;                       // how the objects are handed to the Writer: 0 one buffer, 1 item by item (Writer's own
+                                        // 64 KiB buffer, flushed when full), 2 one buffer per object, 3 buffers of three objects
+    std::string name;                   // generator name: make_dataset(name) rebuilds exactly this data set (replay)
+    std::string keyhint;                // family tag used in class keys of whole-file findings (block families)
 };
 
 // ------------------------------------------------------------------------------------------------
@@ -112,32 +113,39 @@ inline std::string loc_class(const Loc& l) {
     if (l.valid()) return "valid";
     return "outside-valid-range";
 }
-// features of a string that matter to some encoder: joined with '+'
+// features of a string that matter to some encoder, joined with '+'; structural characters are named individually so
+// that e.g. a lost apostrophe and a lost ampersand are different classes
 inline std::string str_class(const std::string& s) {
     if (s.empty()) return "empty";
-    bool xmlsp = false, oplsp = false, ws = false, c0 = false, u2 = false, u3 = false, u4 = false, plain = false, del = false;
-    for (unsigned char c : s) {
-        if (c == '&' || c == '<' || c == '>' || c == '"' || c == '\'') xmlsp = true;
-        else if (c == ' ' || c == ',' || c == '=' || c == '@' || c == '%') oplsp = true;
-        else if (c == '\t' || c == '\n' || c == '\r') ws = true;
-        else if (c < 0x20) c0 = true;
-        else if (c == 0x7f) del = true;
-        else if (c < 0x80) plain = true;
-        else if (c >= 0xf0) u4 = true;
-        else if (c >= 0xe0) u3 = true;
-        else if (c >= 0xc0) u2 = true;
-    }
     std::string r;
-    auto add = [&r](const char* f) { if (!r.empty()) r += "+"; r += f; };
-    if (plain && !(xmlsp || oplsp || ws || c0 || del || u2 || u3 || u4)) add("ascii");
-    if (xmlsp) add("xml-special");
-    if (oplsp) add("opl-special");
-    if (ws) add("tab-lf-cr");
-    if (c0) add("c0-control");
-    if (del) add("del");
-    if (u2) add("utf8-2byte");
-    if (u3) add("utf8-3byte");
-    if (u4) add("utf8-4byte");
+    auto add = [&r](const std::string& f) { if (("+" + r + "+").find("+" + f + "+") == std::string::npos) { if (!r.empty()) r += "+"; r += f; } };
+    bool plain = false, other = false;
+    for (size_t i = 0; i < s.size(); ++i) {
+        unsigned char c = static_cast<unsigned char>(s[i]);
+        switch (c) {
+            case '&': add("amp"); other = true; break;
+            case '<': add("lt"); other = true; break;
+            case '>': add("gt"); other = true; break;
+            case '"': add("quot"); other = true; break;
+            case '\'': add("apos"); other = true; break;
+            case ' ': add("space"); other = true; break;
+            case ',': add("comma"); other = true; break;
+            case '=': add("equals"); other = true; break;
+            case '@': add("at"); other = true; break;
+            case '%': add("percent"); other = true; break;
+            case '\t': add("tab"); other = true; break;
+            case '\n': add("lf"); other = true; break;
+            case '\r': add("cr"); other = true; break;
+            case 0x7f: add("del"); other = true; break;
+            default:
+                if (c < 0x20) { add("c0-control"); other = true; }
+                else if (c < 0x80) plain = true;
+                else if (c >= 0xf0) { add("utf8-4byte"); other = true; }
+                else if (c >= 0xe0) { add(c == 0xef && i + 2 < s.size() && static_cast<unsigned char>(s[i + 1]) == 0xbf && static_cast<unsigned char>(s[i + 2]) >= 0xbe ? "noncharacter-U+FFFE/F" : "utf8-3byte"); other = true; }
+                else if (c >= 0xc0) { add("utf8-2byte"); other = true; }
+        }
+    }
+    if (plain && !other) add("ascii");
     if (s.size() >= 1024) add("len=1024");
     else if (s.size() > 255) add("len>255");
     return r;
